@@ -530,9 +530,81 @@ def sample_points(n, rng, count):
 
 
 # ------------------------------------------------------------------------------------------ per-map worker
+def chain_spec(seed):
+    """a straight chain of two-way roads linked end -> start, some interior ones shorter than any tolerance used:
+    -> [(road id, length)], in order along x"""
+    rng = random.Random(f"chain:{seed}")
+    n = rng.randrange(3, 6)
+    short = {rng.randrange(1, n - 1)}
+    if n >= 5 and rng.random() < 0.5:
+        short.add(rng.choice([i for i in range(1, n - 1) if i not in short and i - 1 not in short and i + 1 not in short] or list(short)))
+    return [(i + 1, 0.01 if i in short else float(rng.choice([30, 50, 80]))) for i in range(n)]
+
+
+def chain_xodr(seed):
+    spec = chain_spec(seed)
+    out = ['<?xml version="1.0" standalone="yes"?>', '<OpenDRIVE>',
+           '  <header revMajor="1" revMinor="4" name="chain" version="1.00" north="0" south="0" east="0" west="0"/>']
+    x = 0.0
+    for k, (rid, length) in enumerate(spec):
+        links, ll, lr = "", "", ""
+        if k > 0:
+            links += f'<predecessor elementType="road" elementId="{spec[k - 1][0]}" contactPoint="end"/>'
+            ll += '<predecessor id="1"/>'
+            lr += '<predecessor id="-1"/>'
+        if k + 1 < len(spec):
+            links += f'<successor elementType="road" elementId="{spec[k + 1][0]}" contactPoint="start"/>'
+            ll += '<successor id="1"/>'
+            lr += '<successor id="-1"/>'
+        out.append(f'  <road name="Road {rid}" length="{length!r}" id="{rid}" junction="-1"><link>{links}</link>'
+                   f'<planView><geometry s="0.0" x="{x!r}" y="0.0" hdg="0.0" length="{length!r}"><line/></geometry></planView>'
+                   f'<lanes><laneSection s="0.0"><left><lane id="1" type="driving" level="false"><link>{ll}</link>'
+                   f'<width sOffset="0.0" a="3.5" b="0.0" c="0.0" d="0.0"/></lane></left>'
+                   f'<center><lane id="0" type="none" level="false"/></center>'
+                   f'<right><lane id="-1" type="driving" level="false"><link>{lr}</link>'
+                   f'<width sOffset="0.0" a="3.5" b="0.0" c="0.0" d="0.0"/></lane></right></laneSection></lanes></road>')
+        x += length
+    out.append('</OpenDRIVE>')
+    return "\n".join(out) + "\n"
+
+
+def chain_issues(n, seed, elide):
+    """direct oracle on a synthetic chain: the kept roads are linked to each other in chain order, through elided ones"""
+    spec = chain_spec(seed)
+    kept = [rid for rid, length in spec if not (elide and length < float(n.tolerance))]
+    byid = {}
+    for r in n.roads:
+        byid[int(r.id)] = r
+    out = []
+    if sorted(byid) != sorted(kept):
+        return [("links:chain:roads", f"roads of the chain {spec} with elide_short_roads={elide}: {sorted(byid)}, expected {sorted(kept)}")]
+    u = lambda e: None if e is None else getattr(e, "uid", repr(e))
+    for k, rid in enumerate(kept):
+        r = byid[rid]
+        want_s = byid[kept[k + 1]] if k + 1 < len(kept) else None
+        want_p = byid[kept[k - 1]] if k > 0 else None
+        if r._successor is not want_s:
+            out.append(("links:chain:successor", f"chain {spec}, elide_short_roads={elide}: successor of road {rid} is {u(r._successor)}, expected {u(want_s)}"))
+        if r._predecessor is not want_p:
+            out.append(("links:chain:predecessor", f"chain {spec}, elide_short_roads={elide}: predecessor of road {rid} is {u(r._predecessor)}, expected {u(want_p)}"))
+        for lane, lid in ((r.forwardLanes.lanes[0] if r.forwardLanes else None, -1), (r.backwardLanes.lanes[0] if r.backwardLanes else None, 1)):
+            if lane is None:
+                continue
+            # the forward lane continues into the forward lane of the next road, the backward lane into that of the previous one
+            nxt, prv = (want_s, want_p) if lid == -1 else (want_p, want_s)
+            grp = lambda rd: None if rd is None else ((rd.forwardLanes if lid == -1 else rd.backwardLanes).lanes[0])
+            if lane._successor is not grp(nxt):
+                out.append(("links:chain:lane-successor", f"chain {spec}, elide_short_roads={elide}: successor of {lane.uid} is {u(lane._successor)}, expected {u(grp(nxt))}"))
+            if lane._predecessor is not grp(prv):
+                out.append(("links:chain:lane-predecessor", f"chain {spec}, elide_short_roads={elide}: predecessor of {lane.uid} is {u(lane._predecessor)}, expected {u(grp(prv))}"))
+    return out
+
+
 def mutate_xodr(text, kind, seed):
     """deterministic mutated variants of a map (positive inputs: a network built from them must be consistent)"""
     import re
+    if kind == "synthetic-chain":
+        return chain_xodr(seed)
     rng = random.Random(f"{kind}:{seed}")
     if kind == "drop-lane-links":
         # remove some lane-level <link> blocks
@@ -802,6 +874,10 @@ def process_map(job):
         res["tolerance"] = float(n.tolerance)
         toks, names, why = export_network(n)
         res["tokens"], res["names"], res["why"] = toks, names, why
+        if job["mutation"] and job["mutation"]["kind"] == "synthetic-chain":
+            for key, what in chain_issues(n, job["mutation"]["seed"], bool(opts.get("elide_short_roads"))):
+                issue(key, what)
+            H("synthetic_chain", f"{len(chain_spec(job['mutation']['seed']))}-roads:elide={bool(opts.get('elide_short_roads'))}")
         # uid bookkeeping (not expressible on indices)
         for uid, e in n.elements.items():
             if e.uid != uid:
@@ -1455,6 +1531,15 @@ def adjacency_issues(adj, adj_model, order_model):
 
 
 # ------------------------------------------------------------------------------------------ cache logic
+def same_size_edit(data):
+    """the map with one blank inside the root tag turned into a tab: same size, still the same OpenDRIVE content"""
+    i = data.find(b"<OpenDRIVE")
+    j = data.find(b" ", i) if i >= 0 else -1
+    if j < 0:
+        j = data.find(b" ")
+    return data[:j] + b"\t" + data[j + 1:] if j >= 0 else data[:-1] + (b"\n" if data[-1:] != b"\n" else b" ")
+
+
 def corr_cache(ctx, small_map):
     """real fromPickle / fromFile / deterministicHash vs the Lean cache model, on crafted headers"""
     roads = R()
@@ -1552,9 +1637,12 @@ def corr_cache(ctx, small_map):
         calls.append(1)
         return net  # parsing stubbed out: only the cache decision is observed here
 
-    def run_fromfile(use_cache, cache_bytes, map_bytes, kwargs):
+    def run_fromfile(use_cache, cache_bytes, map_bytes, kwargs, keep_stat=False):
+        st = os.stat(path) if keep_stat and os.path.exists(path) else None
         with open(path, "wb") as f:
             f.write(map_bytes)
+        if st is not None:  # an in-place rewrite that keeps size-independent metadata (mtime) of the file
+            os.utime(path, ns=(st.st_atime_ns, st.st_mtime_ns))
         if cache_bytes is None:
             if os.path.exists(snet):
                 os.remove(snet)
@@ -1618,6 +1706,27 @@ def corr_cache(ctx, small_map):
                               "cache": None if cache is None else cache[:76].hex(), "payload_ok": cache is not None and cache[76:] == payload,
                               "map": small_map}):
                 found = True
+
+    # ---- histories within this process: the map is loaded, then rewritten in place (same size; modification time kept
+    # or not), then loaded again with the cache of the *earlier* contents present: the cache key must depend on the
+    # contents of the map only, whatever was loaded before from that path
+    same_map = same_size_edit(data)
+    for a, b2 in ((data, same_map), (same_map, data)):
+        for kw in ({}, {"tolerance": 0.05}):
+            for keep in (True, False):
+                first = run_fromfile(True, cache_for(a, kw), a, kw)
+                second = run_fromfile(True, cache_for(a, kw), b2, kw, keep_stat=keep)
+                third = run_fromfile(True, cache_for(b2, kw), b2, kw, keep_stat=keep)
+                ctx.hist("fromfile_history", f"{first}/{second}/{third}")
+                ctx.case({"history": [a is data, keep, sorted(kw.items())]}, nontrivial=True)
+                if (first, second, third) != ("cached", "parsed", "cached"):
+                    bad = "stale-used" if second == "cached" else "raised" if "raised" in first + second + third else "fresh-ignored"
+                    if ctx.violation(f"cache:history:{bad}",
+                                     f"load(map A, cache of A) -> {first}; map rewritten in place (same size, mtime {'kept' if keep else 'new'}); "
+                                     f"load(map B, cache of A) -> {second} (must be parsed); load(map B, cache of B) -> {third}",
+                                     {"kind": "cache-history", "map": small_map, "options": kw, "keep_mtime": keep,
+                                      "start_with_original": a is data}):
+                        found = True
 
     # ---- the front of fromFile: spelling of the path (no extension / .xodr / .snet / unknown) x which files exist
     pdir = os.path.join(work, "pathcases")
@@ -1824,6 +1933,14 @@ def make_jobs(ctx):
         jobs.append(dict(repo=ctx.repo, rel=rel, options={}, mutation={"kind": kind, "seed": mseed},
                          seed=ctx.seed, npoints=B(ctx, 80, 400), scratch=os.path.join(scratch, f"j{len(jobs)}"),
                          depth=B(ctx, 100, 2000)))
+    # synthetic chains of roads with interior roads shorter than the tolerance, linked road-to-road on both sides:
+    # the only inputs on which elide_short_roads rewrites links through an elided road (no shipped map has one)
+    for k in range(B(ctx, 3, 12)):
+        cseed = rng.randrange(10 ** 6)
+        for opts in ({"elide_short_roads": True}, {}) if k == 0 else ({"elide_short_roads": True},):
+            jobs.append(dict(repo=ctx.repo, rel=small[0], options=dict(opts), mutation={"kind": "synthetic-chain", "seed": cseed},
+                             seed=ctx.seed, npoints=B(ctx, 40, 200), scratch=os.path.join(scratch, f"j{len(jobs)}"),
+                             depth=B(ctx, 50, 500)))
     sizes = dict(maps)
     jobs.sort(key=lambda j: -sizes.get(j["rel"], 0))  # biggest first so the pool is balanced
     return jobs, used, skipped
@@ -2033,6 +2150,42 @@ def replay(ctx, path):
                       and cache[68:76] == deterministicHash(rep["options"], digest_size=8))
         print(f"fromFile(useCache={rep['use_cache']}, options={rep['options']}) -> {real}; cache keys match: {should}")
         return 1 if (real == "cached") != should or real.startswith("raised") else 0
+    if kind == "cache-history":
+        roads = R()
+        from scenic.core.serialization import deterministicHash
+        work = os.path.join(ctx.tmp, "replay-cache-history")
+        os.makedirs(work, exist_ok=True)
+        path = os.path.join(work, "m.xodr")
+        shutil.copyfile(os.path.join(ctx.repo, rep["map"]), path)
+        snet = os.path.join(work, "m" + roads.Network.pickledExt)
+        net = roads.Network.fromFile(path, useCache=False, writeCache=True)
+        payload = open(snet, "rb").read()[76:]
+        data = open(path, "rb").read()
+        a, b2 = (data, same_size_edit(data)) if rep["start_with_original"] else (same_size_edit(data), data)
+        kw = rep["options"]
+        cur = roads.Network._currentFormatVersion()
+        calls = []
+        orig_od = roads.Network.__dict__["fromOpenDrive"]
+        out = []
+        for mapb, cached_for, keep in ((a, a, False), (b2, a, rep["keep_mtime"]), (b2, b2, rep["keep_mtime"])):
+            st = os.stat(path) if keep else None
+            with open(path, "wb") as f:
+                f.write(mapb)
+            if st is not None:
+                os.utime(path, ns=(st.st_atime_ns, st.st_mtime_ns))
+            with open(snet, "wb") as f:
+                f.write(struct.pack("<I", cur) + hashlib.blake2b(cached_for).digest() + deterministicHash(kw, digest_size=8) + payload)
+            del calls[:]
+            roads.Network.fromOpenDrive = classmethod(lambda cls, *x, **k: (calls.append(1), net)[1])
+            try:
+                roads.Network.fromFile(path, useCache=True, writeCache=False, **kw)
+                out.append("parsed" if calls else "cached")
+            except BaseException as e:  # noqa
+                out.append("raised " + type(e).__name__)
+            finally:
+                roads.Network.fromOpenDrive = orig_od
+        print(f"load(A, cache of A) / rewrite in place / load(B, cache of A) / load(B, cache of B) -> {out}; expected ['cached', 'parsed', 'cached']")
+        return 0 if out == ["cached", "parsed", "cached"] else 1
     if kind == "frompickle":
         roads = R()
         work = os.path.join(ctx.tmp, "replay-frompickle")
